@@ -19,6 +19,9 @@ pub enum Ty {
     U32,
     F32,
     I64,
+    /// The library's own nucleotide symbol: an element type whose default value (N = 4) is not the
+    /// all-zero bit pattern.
+    Nuc,
 }
 
 #[derive(Clone, Copy, Debug, Serialize, Deserialize, PartialEq, Eq)]
@@ -45,6 +48,9 @@ pub enum Op {
     /// Positional adaptors of the row iterators: nth / nth_back / rev().skip / step_by / last / count /
     /// take().rev(), checked against the same adaptors on the model's rows.
     IterAdaptors(usize),
+    /// `m.clone_from(&other)` / `other.clone_into(&mut m)` where `other` is built from the seed with the
+    /// given number of rows (more or fewer than `m` has).
+    CloneFrom(usize, u64, bool),
 }
 
 #[derive(Clone, Debug, Serialize, Deserialize, PartialEq)]
@@ -87,6 +93,16 @@ impl Elem for f32 {
     }
     const NAME: &'static str = "f32";
 }
+impl Elem for lightmotif::abc::Nucleotide {
+    fn from_i(i: i64) -> Self {
+        use lightmotif::abc::Nucleotide::*;
+        [A, C, T, G, N][i.rem_euclid(5) as usize]
+    }
+    fn to_i(self) -> i64 {
+        self as i64
+    }
+    const NAME: &'static str = "Nucleotide";
+}
 impl Elem for i64 {
     fn from_i(i: i64) -> Self {
         i
@@ -119,6 +135,7 @@ fn op_name(op: &Op) -> &'static str {
         Op::IterBothEnds => "iter-both-ends",
         Op::IterMutRevAdd(_) => "iter_mut-rev",
         Op::IterAdaptors(_) => "iter-adaptors",
+        Op::CloneFrom(..) => "clone_from",
     }
 }
 
@@ -367,6 +384,26 @@ fn run_typed<T: Elem, C: ArrayLength + PartialEq>(sc: &Sc, o: &mut Outcome) {
                     None
                 }
             }),
+            Op::CloneFrom(n, seed, into) => {
+                let rows: Vec<Vec<T>> = (0..n).map(|r| row_values::<T>(seed, r, c)).collect();
+                model = rows.clone();
+                sut(|| {
+                    let other = DenseMatrix::<T, C>::from_rows(rows.iter());
+                    if into {
+                        other.clone_into(&mut m);
+                    } else {
+                        m.clone_from(&other);
+                    }
+                    m == other
+                })
+                .map(|eq| {
+                    if !eq {
+                        Some(("equality".to_string(), "after clone_from the destination compares unequal to its source".to_string()))
+                    } else {
+                        None
+                    }
+                })
+            }
             Op::IterAdaptors(k) => {
                 let n = model.len();
                 let a = if n == 0 { 0 } else { k % (n + 1) };
@@ -503,9 +540,9 @@ fn run_typed<T: Elem, C: ArrayLength + PartialEq>(sc: &Sc, o: &mut Outcome) {
 pub struct DenseSim;
 
 pub fn gen_world(r: &mut Prng, idx: u64) -> Sc {
-    let ty = [Ty::U8, Ty::U32, Ty::F32, Ty::I64][(idx % 4) as usize];
-    let columns = [1usize, 5, 7, 16, 21, 32, 43][((idx / 4) % 7) as usize];
-    let alloc = if (idx / 28) % 3 == 0 { Policy::System } else { Policy::ExactPoison };
+    let ty = [Ty::U8, Ty::U32, Ty::F32, Ty::I64, Ty::Nuc][(idx % 5) as usize];
+    let columns = [1usize, 5, 7, 16, 21, 32, 43][((idx / 5) % 7) as usize];
+    let alloc = if (idx / 35) % 3 == 0 { Policy::System } else { Policy::ExactPoison };
     let n = r.range(3, 30);
     let mut ops = Vec::with_capacity(n);
     // one world in 500 works with matrices beyond 2 MiB / 2^16 rows (few operations: every check is O(rows))
@@ -521,7 +558,7 @@ pub fn gen_world(r: &mut Prng, idx: u64) -> Sc {
         _ => r.range(1, 40),
     };
     for _ in 0..n {
-        ops.push(match r.below(26) {
+        ops.push(match r.below(27) {
             0 => Op::New(rows(r)),
             1 => {
                 let n = rows(r);
@@ -544,6 +581,7 @@ pub fn gen_world(r: &mut Prng, idx: u64) -> Sc {
             21 => Op::IterBothEnds,
             22 => Op::IterMutRevAdd(r.range(1, 100) as i64),
             23 | 24 => Op::IterAdaptors(r.next_u64() as usize >> 8),
+            25 if r.chance(1, 2) => Op::CloneFrom(rows(r), r.next_u64(), r.chance(1, 3)),
             _ => Op::IntoIterRef,
         });
     }
@@ -580,12 +618,14 @@ pub fn run_sc(sc: &Sc, o: &mut Outcome) {
         Ty::U32 => "type=u32",
         Ty::F32 => "type=f32",
         Ty::I64 => "type=i64",
+        Ty::Nuc => "type=Nucleotide",
     });
     match sc.ty {
         Ty::U8 => dispatch_c!(u8, sc, o),
         Ty::U32 => dispatch_c!(u32, sc, o),
         Ty::F32 => dispatch_c!(f32, sc, o),
         Ty::I64 => dispatch_c!(i64, sc, o),
+        Ty::Nuc => dispatch_c!(lightmotif::abc::Nucleotide, sc, o),
     }
 }
 
@@ -692,7 +732,7 @@ impl Sim for DenseSim {
     }
 
     fn rule(_prop: &str) -> String {
-        "Cases: histories of 3..30 operations (new, with_capacity, from_rows, uninitialized + full write, resize up / down / same, reserve, row write, cell write by [row][col] and by MatrixCoordinates, fill, clone, equality against a logically equal matrix built by another route with different padding bytes, inequality after a one-cell change or a row-count change, forward / reverse / alternating-ends / mutable / reverse-mutable / by-reference iteration, positional adaptors nth / nth_back / rev().skip / step_by / last / count / take().rev) on DenseMatrix<T, C>, T in {u8, u32, f32, i64}, C in {1, 5, 7, 16, 21, 32, 43}, under the system allocator or the exact-align+poison allocator (addresses are multiples of the requested alignment but never of twice it; fresh memory 0xA5; freed memory 0x5A; growth always moves). After every operation: row count, column count, stride >= C and a whole number of 32-byte units, every row's address mod 32 = 0, every cell equal to the Vec<Vec<T>> model. Distinct = distinct tuples (T, C, allocator policy, first operation trigram). Non-trivial = at least three operations (every history).".to_string()
+        "Cases: histories of 3..30 operations (new, with_capacity, from_rows, uninitialized + full write, resize up / down / same, reserve, row write, cell write by [row][col] and by MatrixCoordinates, fill, clone, clone_from / clone_into from a taller or shorter matrix, equality against a logically equal matrix built by another route with different padding bytes, inequality after a one-cell change or a row-count change, forward / reverse / alternating-ends / mutable / reverse-mutable / by-reference iteration, positional adaptors nth / nth_back / rev().skip / step_by / last / count / take().rev) on DenseMatrix<T, C>, T in {u8, u32, f32, i64, Nucleotide (default value N = 4, not the zero bit pattern)}, C in {1, 5, 7, 16, 21, 32, 43}, under the system allocator or the exact-align+poison allocator (addresses are multiples of the requested alignment but never of twice it; fresh memory 0xA5; freed memory 0x5A; growth always moves). After every operation: row count, column count, stride >= C and a whole number of 32-byte units, every row's address mod 32 = 0, every cell equal to the Vec<Vec<T>> model. Distinct = distinct tuples (T, C, allocator policy, first operation trigram). Non-trivial = at least three operations (every history).".to_string()
     }
 
     fn required_probes(_prop: &str, _tier: Tier) -> Vec<&'static str> {
